@@ -1,8 +1,420 @@
 import RModel.Driver.State
-/-! bit-sliced index command family. -/
+/-! Bit-sliced index command family (properties C19 / C20).
+
+The model of an index is the finite map `column → Int` (association list sorted by column).  Every expected
+output is computed from the map semantics (lookup / filter / min / max / sum / histogram); bit planes, sign
+planes, widths and worker counts are deliberately NOT modelled here. -/
 namespace RModel.Driver
 open RModel
 
-def stepBsi (_st : St) (_cmd : List String) (_got : String) : Option (St × Verdict) := none
+abbrev BMap := List (Nat × Int)
+
+
+def mget : BMap → Nat → Option Int
+  | [], _ => none
+  | (c, v) :: t, k => if c == k then some v else if k < c then none else mget t k
+
+def mset : BMap → Nat → Int → BMap
+  | [], k, v => [(k, v)]
+  | (c, x) :: t, k, v =>
+    if k < c then (k, v) :: (c, x) :: t
+    else if k == c then (k, v) :: t
+    else (c, x) :: mset t k v
+
+def mcols (m : BMap) : List Nat := m.map (·.1)
+
+def mrender (m : BMap) : String :=
+  if m.isEmpty then "-" else ",".intercalate (m.map fun (c, v) => toString c ++ ":" ++ toString v)
+
+/-- pointwise update with a default for absent columns -/
+def mupd (m : BMap) (c : Nat) (f : Int → Int) : BMap := mset m c (f ((mget m c).getD 0))
+
+
+def fnvStr (s : String) : UInt64 :=
+  s.toUTF8.foldl (fun h b => (h ^^^ b.toUInt64) * P64) 14695981039346656037
+
+/-- digest of a map: number of columns and a hash of the canonical dump -/
+def mdig (m : BMap) : String := toString m.length ++ ":" ++ hex16 (fnvStr (mrender m))
+
+def I64MIN : Int := -9223372036854775808
+def I64MAX : Int := 9223372036854775807
+def isI64 (v : Int) : Bool := I64MIN ≤ v && v ≤ I64MAX
+
+def int? (s : String) : Option Int := s.toInt?
+def i64? (s : String) : Option Int := do
+  let v ← s.toInt?
+  if isI64 v then some v else none
+def ints? (l : List String) : Option (List Int) := l.mapM int?
+def i64s? (l : List String) : Option (List Int) := l.mapM i64?
+
+/-- column bound of an implementation -/
+def colBound (is64 : Bool) : Nat := if is64 then U64 else U32
+
+def col? (is64 : Bool) (s : String) : Option Nat := do
+  let c ← nat? s
+  if c < colBound is64 then some c else none
+
+def fsGet (st : St) (is64 : Bool) (n : String) : Option BSet := if is64 then st.bm64[n]? else st.bm[n]?
+def fsPut (st : St) (is64 : Bool) (n : String) (s : BSet) : St :=
+  if is64 then { st with bm64 := st.bm64.insert n s } else { st with bm := st.bm.insert n s }
+
+/-- found-set token: `-` = nil, `@` = the index's own existence bitmap, otherwise a named bitmap.
+    outer `none` = undefined name (skip) -/
+def fsTok (st : St) (b : BsiSt) (tok : String) : Option (Option BSet) :=
+  if tok == "-" then some none
+  else if tok == "@" then some (some (ofVals (mcols b.vals)))
+  else (fsGet st b.is64 tok).map some
+
+/-- digest of a found-set as printed AFTER the command (`@` follows the index) -/
+def fsd (tok : String) (f : Option BSet) (after : BMap) : String :=
+  if tok == "@" then digest (ofVals (mcols after))
+  else match f with
+    | none => "-"
+    | some s => digest s
+
+/-- restriction of a map to a found-set (nil = everything) -/
+def sel (m : BMap) (f : Option BSet) : BMap :=
+  match f with
+  | none => m
+  | some s => m.filter (fun p => BSet.mem s p.1)
+
+def pred (op : String) (k k2 : Int) (v : Int) : Option Bool :=
+  match op with
+  | "LT" => some (v < k)
+  | "LE" => some (v ≤ k)
+  | "EQ" => some (v == k)
+  | "GE" => some (v ≥ k)
+  | "GT" => some (v > k)
+  | "RANGE" => some (k ≤ v && v ≤ k2)
+  | _ => none
+
+def minOf : List Int → Option Int
+  | [] => none
+  | a :: t => some (t.foldl (fun x y => if y < x then y else x) a)
+def maxOf : List Int → Option Int
+  | [] => none
+  | a :: t => some (t.foldl (fun x y => if y > x then y else x) a)
+
+def joinOr (l : List String) : String := if l.isEmpty then "-" else ",".intercalate l
+
+/-- histogram value ↦ count (as a map keyed by the value, which must be a natural number) -/
+def hist (vs : List Int) : BMap :=
+  vs.foldl (fun h v => mupd h v.toNat (· + 1)) []
+
+def putB (st : St) (n : String) (b : BsiSt) : St := { st with bsi := st.bsi.insert n b }
+
+/-- the part of a Go output before the informational suffix " | ..." -/
+def beforeBar (got : String) : String :=
+  match got.splitOn " |" with
+  | h :: _ => h
+  | [] => got
+
+/-- bsetmany / bsetmanybig -/
+def doSetMany (st : St) (big : Bool) (s f v : String) : Option (St × String) := do
+  let b ← st.bsi[s]?
+  guard (!big || b.is64)
+  let fs ← fsTok st b f
+  let fset ← fs          -- nil is not allowed
+  let v ← (if big then int? v else i64? v)
+  let m := (BSet.toList fset).foldl (fun m c => mset m c v) b.vals
+  pure (putB st s { b with vals := m }, mdig m ++ " " ++ fsd f fs m)
+
+/-- bcmp / bcmpbig r s w op k [k2] [f] -/
+def doCmp (st : St) (big : Bool) (r s w op : String) (rest : List String) : Option (St × String) := do
+  let b ← st.bsi[s]?
+  let _ ← nat? w
+  guard (!big || b.is64)
+  let parse := if big then int? else i64?
+  let (k, k2, ftok) ← (match op, rest with
+    | "RANGE", [a, c] => do pure ((← parse a), (← parse c), "-")
+    | "RANGE", [a, c, f] => do pure ((← parse a), (← parse c), f)
+    | "RANGE", _ => none
+    | _, [a] => do pure ((← parse a), (0 : Int), "-")
+    | _, [a, f] => do pure ((← parse a), (0 : Int), f)
+    | _, _ => none)
+  let _ ← pred op k k2 0
+  let fs ← fsTok st b ftok
+  let res := ofVals (((sel b.vals fs).filter (fun p => (pred op k k2 p.2).getD false)).map (·.1))
+  pure (fsPut st b.is64 r res, digest res ++ " same " ++ fsd ftok fs b.vals)
+
+/-- bcmpbsi r s op t [f] : columns present in both (and in f) where s[c] op t[c] -/
+def doCmpBsi (st : St) (r s op t : String) (rest : List String) : Option (St × String) := do
+  let b ← st.bsi[s]?
+  let o ← st.bsi[t]?
+  guard (b.is64 && o.is64)
+  guard (op == "LT" || op == "LE" || op == "EQ" || op == "GE" || op == "GT")
+  let ftok ← (match rest with | [] => some "-" | [f] => some f | _ => none)
+  let fs ← fsTok st b ftok
+  let res := ofVals ((sel b.vals fs).filterMap (fun p =>
+    match mget o.vals p.1 with
+    | some ov => if (pred op ov 0 p.2).getD false then some p.1 else none
+    | none => none))
+  pure (fsPut st true r res,
+    digest res ++ " same same " ++ fsd ftok fs b.vals)
+
+def doBatchEq (st : St) (big : Bool) (r s w : String) (vals : List String) : Option (St × String) := do
+  let b ← st.bsi[s]?
+  let _ ← nat? w
+  guard (!big || b.is64)
+  let vs ← (if big then ints? vals else i64s? vals)
+  let res := ofVals ((b.vals.filter (fun p => vs.contains p.2)).map (·.1))
+  pure (fsPut st b.is64 r res, digest res ++ " same")
+
+def doMinMax (st : St) (big : Bool) (s w op f got : String) : St × Verdict :=
+  match st.bsi[s]?, nat? w with
+  | some b, some _ =>
+    if (big && !b.is64) || !(op == "MIN" || op == "MAX") then (st, expect "skip" got)
+    else match fsTok st b f with
+      | none => (st, expect "skip" got)
+      | some fs =>
+        let vs := (sel b.vals fs).map (·.2)
+        match (if op == "MIN" then minOf vs else maxOf vs) with
+        | some v => (st, expect (toString v) got)
+        | none => (st, none)      -- empty set: outside the statement (unchecked)
+  | _, _ => (st, expect "skip" got)
+
+def transposable (b : BsiSt) (vs : List Int) : Bool := vs.all (fun v => 0 ≤ v && v.toNat < colBound b.is64)
+
+def doTwc (st : St) (t s w f g : String) : Option (St × String) := do
+  let b ← st.bsi[s]?
+  let _ ← nat? w
+  guard (b.is64 || g == "-")
+  let fs ← fsTok st b f
+  let gs ← fsTok st b g
+  -- a nil filter set means "the index's own existence bitmap" (the roaring64 default);
+  -- the 32-bit implementation has no filter
+  let filt : Int → Bool := fun v =>
+    if !b.is64 then true
+    else match gs with
+      | some x => BSet.mem x v.toNat
+      | none => (mget b.vals v.toNat).isSome
+  let vs := (sel b.vals fs).map (·.2)
+  guard (transposable b vs)
+  let h := hist (vs.filter filt)
+  pure (putB st t { vals := h, is64 := b.is64 }, mdig h ++ " same")
+
+def doSum (st : St) (big : Bool) (s f : String) : Option (St × String) := do
+  let b ← st.bsi[s]?
+  guard (!big || b.is64)
+  let fs ← fsTok st b f
+  let m := sel b.vals fs
+  pure (st, toString (m.foldl (fun a p => a + p.2) (0 : Int)) ++ " " ++ toString m.length)
+
+def stepBsi (st : St) (cmd : List String) (got : String) : Option (St × Verdict) :=
+  let fin (r : Option (St × String)) : Option (St × Verdict) :=
+    some (match r with
+      | some (st', e) => (st', expect e got)
+      | none => (st, expect "skip" got))
+  match cmd with
+  -- ---------------------------------------------------------------- found-set helpers
+  | "fs64" :: f :: vs => fin do
+      let l ← nats? vs
+      guard (l.all (· < U64))
+      let s := ofVals l
+      pure ({ st with bm64 := st.bm64.insert f s }, digest s)
+  | "fs32" :: f :: vs => fin do
+      let l ← nats? vs
+      guard (l.all (· < U32))
+      let s := ofVals l
+      pure ({ st with bm := st.bm.insert f s }, digest s)
+  | "fsflip64" :: f :: vs => fin do
+      let s ← st.bm64[f]?
+      let l ← nats? vs
+      guard (l.all (· < U64))
+      let s' := l.foldl (fun a v => BSet.xor a (BSet.single v)) s
+      pure ({ st with bm64 := st.bm64.insert f s' }, digest s')
+  | "fsflip32" :: f :: vs => fin do
+      let s ← st.bm[f]?
+      let l ← nats? vs
+      guard (l.all (· < U32))
+      let s' := l.foldl (fun a v => BSet.xor a (BSet.single v)) s
+      pure ({ st with bm := st.bm.insert f s' }, digest s')
+  | ["fsr64", f, lo, hi] => fin do
+      let lo ← nat? lo
+      let hi ← nat? hi
+      guard (lo < U64 && hi < U64)
+      let s := BSet.range lo hi
+      pure ({ st with bm64 := st.bm64.insert f s }, digest s)
+  | ["fsr32", f, lo, hi] => fin do
+      let lo ← nat? lo
+      let hi ← nat? hi
+      guard (lo < U64 && hi ≤ U32)
+      let s := BSet.range lo hi
+      pure ({ st with bm := st.bm.insert f s }, digest s)
+  | ["fsdig64", f] => fin do
+      let s ← st.bm64[f]?
+      pure (st, digest s)
+  | ["fsdump64", f] => fin do
+      let s ← st.bm64[f]?
+      pure (st, dump s)
+  -- ---------------------------------------------------------------- construction
+  | ["bnew", s, w] => fin do
+      guard (w == "64" || w == "32")
+      pure (putB st s { vals := [], is64 := w == "64" }, mdig [])
+  | ["bnew", s, w, mx, mn] => fin do
+      guard (w == "64" || w == "32")
+      let _ ← i64? mx
+      let _ ← i64? mn
+      pure (putB st s { vals := [], is64 := w == "64" }, mdig [])
+  -- ---------------------------------------------------------------- updates
+  | ["bset", s, c, v] => fin do
+      let b ← st.bsi[s]?
+      let c ← col? b.is64 c
+      let v ← i64? v
+      let m := mset b.vals c v
+      pure (putB st s { b with vals := m }, mdig m)
+  | ["bsetbig", s, c, v] => fin do
+      let b ← st.bsi[s]?
+      guard b.is64
+      let c ← col? true c
+      let v ← int? v
+      let m := mset b.vals c v
+      pure (putB st s { b with vals := m }, mdig m)
+  | ["bsetmany", s, f, v] => fin (doSetMany st false s f v)
+  | ["bsetmanybig", s, f, v] => fin (doSetMany st true s f v)
+  | ["bclr", s, f] => fin do
+      let b ← st.bsi[s]?
+      let fs ← fsTok st b f
+      let fset ← fs
+      let m := b.vals.filter (fun p => !BSet.mem fset p.1)
+      pure (putB st s { b with vals := m }, mdig m ++ " " ++ fsd f fs m)
+  | ["bretain", s, f] => fin do
+      let b ← st.bsi[s]?
+      guard b.is64
+      let fs ← fsTok st b f
+      let _ ← fs
+      let m := sel b.vals fs
+      pure (putB st s { b with vals := m },
+        toString (b.vals.length - m.length) ++ " " ++ mdig m ++ " " ++ fsd f fs m)
+  | "bparor" :: s :: w :: ts => fin do
+      let b ← st.bsi[s]?
+      let _ ← nat? w
+      guard (!ts.isEmpty)
+      let bs ← ts.mapM (fun t => st.bsi[t]?)
+      guard (bs.all (fun t => t.is64 == b.is64))
+      let m := bs.foldl (fun m t => t.vals.foldl (fun m p => mset m p.1 p.2) m) b.vals
+      pure (putB st s { b with vals := m },
+        " ".intercalate (mdig m :: bs.map (fun t => mdig t.vals)))
+  | ["badd", s, t] => fin do
+      let b ← st.bsi[s]?
+      let o ← st.bsi[t]?
+      guard (o.is64 == b.is64)
+      let m := o.vals.foldl (fun m p => mupd m p.1 (· + p.2)) b.vals
+      let o' := if s == t then m else o.vals
+      pure (putB st s { b with vals := m }, mdig m ++ " " ++ mdig o')
+  | ["binc", s, f] => fin do
+      let b ← st.bsi[s]?
+      let fs ← fsTok st b f
+      let targets := match fs with
+        | none => mcols b.vals
+        | some x => BSet.toList x
+      let m := targets.foldl (fun m c => mupd m c (· + 1)) b.vals
+      pure (putB st s { b with vals := m }, mdig m ++ " " ++ fsd f fs m)
+  | ["bopt", s] => fin do
+      let b ← st.bsi[s]?
+      pure (st, mdig b.vals)
+  | ["bincall", s] => fin do
+      let b ← st.bsi[s]?
+      let m := b.vals.map (fun p => (p.1, p.2 + 1))
+      pure (putB st s { b with vals := m }, mdig m)
+  -- ---------------------------------------------------------------- point queries
+  | ["bget", s, c] => fin do
+      let b ← st.bsi[s]?
+      let c ← col? b.is64 c
+      pure (st, match mget b.vals c with
+        | none => "0 false"
+        | some v => if isI64 v then toString v ++ " true" else "panic")
+  | ["bgetbig", s, c] => fin do
+      let b ← st.bsi[s]?
+      guard b.is64
+      let c ← col? true c
+      pure (st, match mget b.vals c with
+        | none => "nil false"
+        | some v => toString v ++ " true")
+  | "bgets" :: s :: cs => fin do
+      let b ← st.bsi[s]?
+      guard b.is64
+      let cs ← cs.mapM (col? true)
+      let vs := cs.map (mget b.vals)
+      if vs.any (fun o => match o with | some v => !isI64 v | none => false) then pure (st, "panic")
+      else pure (st, joinOr (vs.map fun o => match o with | some v => toString v | none => "-"))
+  | "bgetsbig" :: s :: cs => fin do
+      let b ← st.bsi[s]?
+      guard b.is64
+      let cs ← cs.mapM (col? true)
+      pure (st, joinOr (cs.map fun c => match mget b.vals c with | some v => toString v | none => "-"))
+  | ["bexists", s, c] => fin do
+      let b ← st.bsi[s]?
+      let c ← col? b.is64 c
+      pure (st, bstr (mget b.vals c).isSome)
+  | ["bcard", s] => fin do
+      let b ← st.bsi[s]?
+      pure (st, toString b.vals.length)
+  | ["bbits", s] =>
+      -- informational only (printed so that a reader can see the index's width)
+      match st.bsi[s]? with
+      | some _ => some (st, if got.startsWith "bits=" then none else some "bits=<n>")
+      | none => fin none
+  | ["bdump", s] => fin do
+      let b ← st.bsi[s]?
+      pure (st, if b.vals.length > 32 then mdig b.vals else mrender b.vals)
+  | ["bchk", s] => fin do
+      let _ ← st.bsi[s]?
+      pure (st, "ok")
+  -- ---------------------------------------------------------------- copies
+  | ["bclone", t, s] | ["bmarsh", t, s] => fin do
+      let b ← st.bsi[s]?
+      pure (putB st t b, mdig b.vals ++ " " ++ mdig b.vals)
+  | ["bretainset", t, s, f] => fin do
+      let b ← st.bsi[s]?
+      let fs ← fsTok st b f
+      let _ ← fs
+      let m := sel b.vals fs
+      pure (putB st t { b with vals := m }, mdig m ++ " " ++ mdig b.vals ++ " " ++ fsd f fs b.vals)
+  | ["bstream", t, s] =>
+      match st.bsi[s]? with
+      | some b =>
+        if b.is64 then
+          some (putB st t b, expect (mdig b.vals ++ " " ++ mdig b.vals ++ " ok") (beforeBar got))
+        else fin none
+      | none => fin none
+  | ["bequals", s, t] => fin do
+      let b ← st.bsi[s]?
+      let o ← st.bsi[t]?
+      guard (b.is64 && o.is64)
+      pure (st, bstr (b.vals == o.vals))
+  -- ---------------------------------------------------------------- queries
+  | "bcmp" :: r :: s :: w :: op :: rest => fin (doCmp st false r s w op rest)
+  | "bcmpbig" :: r :: s :: w :: op :: rest => fin (doCmp st true r s w op rest)
+  | "bcmpbsi" :: r :: s :: op :: t :: rest => fin (doCmpBsi st r s op t rest)
+  | "beq" :: r :: s :: w :: vals => fin (doBatchEq st false r s w vals)
+  | "beqbig" :: r :: s :: w :: vals => fin (doBatchEq st true r s w vals)
+  | "beqvals" :: s :: w :: f :: vals => fin do
+      let b ← st.bsi[s]?
+      guard b.is64
+      let _ ← nat? w
+      let fs ← fsTok st b f
+      let vs ← i64s? vals
+      pure (st, mrender ((sel b.vals fs).filter (fun p => vs.contains p.2)))
+  | ["bminmax", s, w, op, f] => some (doMinMax st false s w op f got)
+  | ["bminmaxbig", s, w, op, f] => some (doMinMax st true s w op f got)
+  | ["bsum", s, f] => fin (doSum st false s f)
+  | ["bsumbig", s, f] => fin (doSum st true s f)
+  | ["btrans", r, s] => fin do
+      let b ← st.bsi[s]?
+      let vs := b.vals.map (·.2)
+      guard (transposable b vs)
+      let res := ofVals (vs.map Int.toNat)
+      pure (fsPut st b.is64 r res, digest res ++ " same")
+  | ["bitrans", r, s, w, f] => fin do
+      let b ← st.bsi[s]?
+      let _ ← nat? w
+      let fs ← fsTok st b f
+      let vs := (sel b.vals fs).map (·.2)
+      guard (transposable b vs)
+      let res := ofVals (vs.map Int.toNat)
+      pure (fsPut st b.is64 r res, digest res ++ " same " ++ fsd f fs b.vals)
+  | ["btwc", t, s, w, f, g] => fin (doTwc st t s w f g)
+  | _ => none
 
 end RModel.Driver
